@@ -864,7 +864,7 @@ func init() {
 	core.Register(&core.Check{
 		Spec: core.Spec{
 			Prop:        "C17",
-			Rule:        "Histories of save / remove (by receiver, issuer, strangers) / read calls on the real Hippocampus over 2-4 addresses (issuer = receiver included) with unique transactions, recorded at the call boundary with a logical clock. Sequential histories (10-40 operations) and concurrent ones (2-8 goroutines released from a barrier, 3-7 operations each, a few transactions saved beforehand). Each history is checked (a) at quiescence: every address lists exactly the successfully saved and not removed transactions that name it; (b) with porcupine, partitioned per address list (set model: add/del/read, an operation touching two addresses contributes to both partitions) and per transaction key (register: saved/removed, exists, not found, unauthorized); a checker timeout is inconclusive. Thorough tier only: one scenario outwaits the cache's fixed 5 minute life window (dangling reference of an expired transaction followed by live entries on the same list). Non-trivial = every history; distinct by (kind, goroutines, operations, addresses). One batch attacks an awaiting contract on a whole node (notary, gossip, real ledger and caches): notary Reject signed by the issuer, by a third wallet, with the issuer's signature under the receiver's address, with a flipped signature bit; gossiped vertices that name the contract but are refused (under the hash of genesis, as a copy of a held tip, with a corrupted seal, sealed by the issuer itself, with a changed amount); gossiped copies of the contract; Confirm with the issuer's signature in the receiver's place. The contract must stay listed for issuer and receiver; the receiver's Reject then takes it off both lists. During the concurrent histories three goroutines keep the Flashback memory of the same package busy with unrelated hashes and addresses. Transactions are stamped a minute ago, ten days ago, five seconds ahead and a day ahead of the node's clock. Oversized contracts (300 KB to 4 MB, beyond a cache shard): a save reported as done is listed and removable, a refused one is listed for nobody.",
+			Rule:        "Histories of save / remove (by receiver, issuer, strangers) / read calls on the real Hippocampus over 2-4 addresses (issuer = receiver included) with unique transactions, recorded at the call boundary with a logical clock. Sequential histories (10-40 operations) and concurrent ones (2-8 goroutines released from a barrier, 3-7 operations each, a few transactions saved beforehand). Each history is checked (a) at quiescence: every address lists exactly the successfully saved and not removed transactions that name it; (b) with porcupine, partitioned per address list (set model: add/del/read, an operation touching two addresses contributes to both partitions) and per transaction key (register: saved/removed, exists, not found, unauthorized); a checker timeout is inconclusive. Thorough tier only: one scenario outwaits the cache's fixed 5 minute life window (dangling reference of an expired transaction followed by live entries on the same list). Non-trivial = every history; distinct by (kind, goroutines, operations, addresses). One batch attacks an awaiting contract on a whole node (notary, gossip, real ledger and caches): notary Reject signed by the issuer, by a third wallet, with the issuer's signature under the receiver's address, with a flipped signature bit; gossiped vertices that name the contract but are refused (under the hash of genesis, as a copy of a held tip, with a corrupted seal, sealed by the issuer itself, with a changed amount); gossiped copies of the contract; Confirm with the issuer's signature in the receiver's place. The contract must stay listed for issuer and receiver; the receiver's Reject then takes it off both lists. During the concurrent histories three goroutines keep the Flashback memory of the same package busy with unrelated hashes and addresses. Transactions are stamped a minute ago, ten days ago, five seconds ahead and a day ahead of the node's clock. Oversized contracts (300 KB to 4 MB, beyond a cache shard): a save reported as done is listed and removable, a refused one is listed for nobody. Concurrent histories that start from a long list with expired entries (dangling references), readers and savers of the same address together.",
 			Assumptions: []string{"no entry comes near the 5 minute life window or the memory bound of the cache (histories are short, the cache is created with a large hard limit)", "porcupine v1.3.0 is the trusted linearizability checker"},
 			MinEvals:    60, MinNontriv: 10,
 		},
